@@ -91,6 +91,13 @@ fn arg_len(rng: &mut Rng, ty: &Ty, cur: usize, over_ok: bool) -> usize {
 /// happens to build its operands through it — the properties quantify over vectors "produced by any history".
 pub fn produced(rng: &mut Rng, ty: &Ty, maxlen: usize, emit: Emit) -> String {
     let mut cur = gen_vec(rng, ty, maxlen);
+    if rng.chance(1, 5) {
+        // start from all ones / a run of ones reaching the top, so that a following `+ 1` wraps through every word
+        let len = tok_len(&cur);
+        let lo = if rng.chance(1, 2) { 0 } else { rng.below(len + 1) };
+        let bits: Vec<bool> = (0..len).map(|i| i >= lo).collect();
+        cur = vec_token(ty, &bits, rng.below(3), rng.chance(1, 3));
+    }
     const FORMS: [&str; 6] = ["vv", "vr", "rv", "rr", "av", "ar"];
     for _ in 0..(1 + rng.below(3)) {
         let len = tok_len(&cur);
@@ -101,6 +108,11 @@ pub fn produced(rng: &mut Rng, ty: &Ty, maxlen: usize, emit: Emit) -> String {
             5 => {
                 let k = match rng.below(3) { 0 => 1, 1 => ty.w, _ => rng.below(len + 2) };
                 line(if rng.chance(1, 2) { "shl" } else { "shr" }, &[&cur, &format!("u32:{:x}", k), *rng.pick(&FORMS)])
+            }
+            6 if rng.chance(1, 2) => {
+                // wrap-around arithmetic with a short operand: carries / borrows that run to the top word
+                let r = ["u8:1", "u16:1", "u8:ff", "u64:1", "u128:1"][rng.below(5)];
+                line(*rng.pick(&["add", "sub"]), &[&cur, r, "ar"])
             }
             6 | 7 => {
                 let r = if rng.chance(1, 4) { gen_uint(rng) } else {
